@@ -258,6 +258,7 @@ func runInBubble(base string, p Profile, h Header, hooks Hooks, mk func(c *Clust
 		}
 		return false
 	}
+	journaled := 0
 	for !bad() {
 		a, ok := next(v)
 		if !ok {
@@ -265,6 +266,14 @@ func runInBubble(base string, p Profile, h Header, hooks Hooks, mk func(c *Clust
 		}
 		c.step(a)
 		v = c.Observe()
+		// violations go to the journal as they are found: if the process dies later in the case
+		// (a panic in a library goroutine), the driver's death report still shows what the oracle had seen
+		if vs := c.rec.Violations(); len(vs) > journaled {
+			for _, x := range vs[journaled:] {
+				journal(map[string]any{"violation_seen": x.Signature, "property": x.Property, "msg": x.Msg})
+			}
+			journaled = len(vs)
+		}
 	}
 	if !bad() {
 		c.epilogue(p)
